@@ -148,7 +148,10 @@ def _inner(a, b):
 
 def _nowork_1d(ck, N):
     K = orc.retained_band(N, F23)
-    uh = hermitian_spectrum("u", N, 1, 1, band=K)
+    # FULL spectrum (content up to Nyquist): the term only sees the dealiased part of u and is itself confined
+    # to the band, so <u, N(u)> = <u_K, N(u_K)> = 0 for every state -- which also pins the width of the band
+    # (one retained mode too many aliases at N divisible by 6)
+    uh = hermitian_spectrum("u", N, 1, 1)
     ins = [In("L", (), lo=0.5, hi=2.0), In("b", (), lo=0.5, hi=2.0), In("uh", uh.shape, "complex", sym_arr=uh)]
 
     def f(L, b, uh):
